@@ -142,6 +142,18 @@ class ExprMixin:
                         val = _NOLIT
                     if val is not _NOLIT and isinstance(val, (int, str, bool, bytes, type(None))):
                         return self.const(val)
+                    if val is not _NOLIT and isinstance(val, (tuple, list)) and val and \
+                            (all(type(x) is str for x in val) or all(type(x) is int for x in val)):
+                        # a literal tuple/list of strings or ints (never mutated: tuples; lists are only read by the bodies under contract)
+                        ety = STR if type(val[0]) is str else INT
+                        units = [z3.Unit(self.const(x).t) for x in val]
+                        return V(TSeq(ety), z3.Concat(*units) if len(units) > 1 else units[0])
+                    d = m.relpath[:-3].replace('/', '.').removesuffix('.__init__') + '.' + name
+                    ev_ = getattr(self.reg, 'ext_values', {})
+                    if d in ev_:
+                        # a module-level singleton with a declared type: a distinguished constant
+                        ty_ = parse_type(ev_[d], self.reg.enums)
+                        return V(ty_, z3.Const('ext_' + ''.join(c if c.isalnum() else '_' for c in d), ty_.sort()))
                     return V(MOD, f'<global {m.relpath}:{name}>')
         if name in self.exc_codes:
             return V(CLS, ('exc', name))
@@ -293,7 +305,10 @@ class ExprMixin:
             return V(STR, self.UF('repr_str', z3.StringSort(), z3.StringSort())(v.t))
         if v.ty is INT:
             return V(STR, self.UF('str_of_int', z3.IntSort(), z3.StringSort())(v.t))
-        if isinstance(v.ty, (TObj, TRef, TEnum, TOpt, TSeq, TTuple)) or v.ty in (BOOL, EXC, CLSV):
+        if v.ty is EXC:
+            # the message of an exception instance: exceptions are modelled by their class only, so nothing is known about it
+            return V(STR, z3.Const(fresh_name('excmsg'), z3.StringSort()))
+        if isinstance(v.ty, (TObj, TRef, TEnum, TOpt, TSeq, TTuple)) or v.ty in (BOOL, CLSV):
             f = self.UF('str_of_' + ''.join(c if c.isalnum() else '_' for c in v.ty.key), v.ty.sort(), z3.StringSort())
             return V(STR, f(v.t))
         raise Unsupported(f'str() of {v.ty}')
@@ -730,6 +745,11 @@ class ExprMixin:
                 return V(CLS, m.classes[attr])
             if attr in m.imports:
                 return self.resolve_dotted(m.imports[attr])
+            if m.relpath.endswith('__init__.py'):
+                # a submodule of a package (bound on the package by `import pkg.sub`)
+                sub = self.src.by_dotted.get(m.relpath[:-len('/__init__.py')].replace('/', '.') + '.' + attr)
+                if sub is not None:
+                    return V(MOD, ('repo', sub))
             return V(MOD, f'<global {m.relpath}:{attr}>')
         if isinstance(p, str):
             d = f'{p}.{attr}'
@@ -816,6 +836,12 @@ class ExprMixin:
             if self.field_ty(ty.cls, '__items__') is not None:
                 return V(BOUND, Bound(r, attr, None, ci))
             raise Unsupported(f'attribute {ty.cls}.{attr}: not a declared field or method')
+        if isinstance(ty, TObj) and f'<{ty.name}>.@{attr}' in self.reg.external:
+            return self.ext_attribute(r, f'<{ty.name}>.@{attr}', st, exits, e)
+        if ty is EXC and attr == '__class__':
+            return V(CLSV, r.t)
+        if ty is CLSV and attr == '__name__':
+            return V(STR, self.UF('class_name', z3.IntSort(), z3.StringSort())(r.t))
         if isinstance(ty, TEnum):
             if attr == 'name':
                 return V(STR, self.UF('enum_name_' + ty.name, ty.sort(), z3.StringSort())(r.t))
